@@ -73,3 +73,40 @@ Proof.
   all: try (f_equal; f_equal; f_equal; fold_pows; lia).
   all: try (unfold cast, norm; cbn [signed bits]; rewrite smod_mod by lia; reflexivity).
 Qed.
+
+(** ** conditional jumps: the flag-setting instruction and condition code chosen for each of the 44 opcodes make the x86
+    branch taken exactly when the ISA condition holds *)
+From RbpfV Require Import ClJmpProofs.
+
+Theorem jit_jmp_arms i R d s :
+  (forall r, 0 <= R r < 2 ^ 64) ->
+  Forall (fun o => xcond (fst (gen_jit_jmp o i d s)) (snd (gen_jit_jmp o i d s)) R = Some (isa_jump_taken o i (R d) (R s))) cl_jmp_ops.
+Proof.
+  intros HR. unfold cl_jmp_ops. pose proof (HR d) as Rd. pose proof (HR s) as Rs.
+  assert (M32d : 0 <= R d mod 2 ^ 32 < 2 ^ 32) by (apply Z.mod_pos_bound; fold_pows; lia).
+  assert (M32s : 0 <= R s mod 2 ^ 32 < 2 ^ 32) by (apply Z.mod_pos_bound; fold_pows; lia).
+  assert (M32i : 0 <= imm i mod 2 ^ 32 < 2 ^ 32) by (apply Z.mod_pos_bound; fold_pows; lia).
+  assert (M64i : 0 <= imm i mod 2 ^ 64 < 2 ^ 64) by (apply Z.mod_pos_bound; fold_pows; lia).
+  repeat (apply Forall_cons;
+    [ match goal with |- xcond (fst (gen_jit_jmp ?o _ _ _)) _ _ = _ =>
+        unfold isa_jump_taken;
+        let v1 := eval vm_compute in (o mod 8 =? 5) in change (o mod 8 =? 5) with v1;
+        let v2 := eval vm_compute in (o / 16) in change (o / 16) with v2;
+        let v3 := eval vm_compute in (Z.testbit o 3) in change (Z.testbit o 3) with v3;
+        cbv beta iota zeta delta [cond];
+        unfold gen_jit_jmp;
+        match goal with |- xcond (fst ?L) _ _ = _ => let L2 := eval simpl in L in change L with L2 end;
+        match goal with |- xcond (fst (?f ?i ?d ?s)) _ _ = _ => unfold f end
+      end;
+      cbn [fst snd]; unfold xcond, flag_operands, opw;
+      repeat match goal with |- context [?a =? ?b] =>
+        lazymatch a with Zpos _ => idtac | Z0 => idtac end; lazymatch b with Zpos _ => idtac | Z0 => idtac end;
+        let v := eval vm_compute in (a =? b) in change (a =? b) with v end;
+      cbv iota beta; cbn [andb];
+      rewrite ?(Z.mod_small (R d) (2 ^ 64)), ?(Z.mod_small (R s) (2 ^ 64)) by assumption;
+      rewrite ?(sgnw_smod 32 (R d mod 2 ^ 32)), ?(sgnw_smod 32 (R s mod 2 ^ 32)), ?(sgnw_smod 32 (imm i mod 2 ^ 32)),
+              ?(sgnw_smod 64 (R d)), ?(sgnw_smod 64 (R s)), ?(sgnw_smod 64 (imm i mod 2 ^ 64)) by (assumption || lia);
+      reflexivity
+    | ]).
+  apply Forall_nil.
+Qed.
